@@ -139,8 +139,10 @@ Section WFSec.
   Proof. unfold flip_diagonal. wf_tac. Qed.
   Lemma wf_hemisphere (s : Seg K) (p : V) (i : nat) : PW (process_hemisphere s p i).
   Proof. unfold process_hemisphere. wf_tac. Qed.
+  Lemma wf_precheck (s : Seg K) (p : V) (i : nat) : PW (split_precheck s p i).
+  Proof. unfold split_precheck. wf_tac. Qed.
   Lemma wf_split_edge (i : nat) (e : Edge) (p : V) : PW (split_edge i e p).
-  Proof. unfold split_edge. wf_tac; try apply wf_hemisphere. Qed.
+  Proof. unfold split_edge. repeat first [apply wf_hemisphere | apply wf_precheck | wf_step]. Qed.
   Lemma wf_split_triangle (i : nat) (p : V) : PW (split_triangle i p).
   Proof. unfold split_triangle. wf_tac. Qed.
 
